@@ -55,6 +55,31 @@ def length (ctx : FontCtx) (pixelsOnly : Bool) : Spec → Computed
             else if u == "rem" then finish (value * ctx.rootFontSize)
             else .dim value unit                   -- a percentage: no conversion
  
+/-! ### `get_length`: which tokens are lengths -/
+
+/-- A tinycss2 token as `get_length` reads it. -/
+inductive LTok where
+  | number (value : Rat)
+  | dimension (value : Rat) (unit lowerUnit : String)   -- `token.unit` as written, `token.lower_unit`
+  | percentage (value : Rat)
+  | other
+  deriving Repr, BEq, DecidableEq
+
+/-- `LENGTH_UNITS = set(LENGTHS_TO_PIXELS) | {'ex', 'em', 'ch', 'rem'}` (generated). -/
+def lengthUnits : List String :=
+  Gen.UnitsC07.lengthsToPixels.map Prod.fst ++ Gen.UnitsC07.relativeUnits
+
+/-- `get_length(token, negative, percentage)`: the unit is compared **as written** (case-sensitive) and is the
+one carried by the returned `Dimension`. -/
+def getLength (negative percentage : Bool) (t : LTok) : Option Spec :=
+  match t with
+  | .percentage v =>
+    if percentage && (negative || v ≥ 0) then some (.dim v (some "%")) else none
+  | .dimension v u _ =>
+    if lengthUnits.contains u && (negative || v ≥ 0) then some (.dim v (some u)) else none
+  | .number v => if v == 0 then some (.dim 0 none) else none
+  | .other => none
+
 /-- Pixels of an absolute length (`none` for units outside the table). -/
 def toPx (value : Rat) (unit : String) : Option Rat := (factor unit).map (value * ·)
 
